@@ -743,6 +743,18 @@ def _toposort_visits(prog, res):
       if not one:
         bad.append('`%s` pushes more than one unvisited successor' %
                    norm_text(st)[:50])
+  # ... and it is marked as soon as it is on top of the stack, before its
+  # successors are listed: marked only when it finishes, a vertex on a cycle
+  # that is reachable from a root is pushed again and again (the loop never
+  # ends for cyclic ordering pairs instead of being rejected or processed)
+  adds = [st for st in loop.body if isinstance(st, ast.Expr) and isinstance(
+      st.value, ast.Call) and isinstance(st.value.func, ast.Attribute) and
+          dotted(st.value.func.value) == seen and st.value.func.attr == 'add']
+  exp_at = [i for i, st in enumerate(loop.body) if isinstance(
+      st, ast.Assign) and dotted(st.targets[0]) == expand]
+  if not (adds and exp_at and loop.body.index(adds[0]) < exp_at[0]):
+    bad.append('the vertex on top of the stack is not marked visited '
+               'unconditionally before its successors are listed')
   res.check(not bad, 'O2', key + '|visit-discipline', fn.loc(loop),
             'vertices are marked visited when expanded (on top of the stack) '
             'and successors are pushed one at a time',
